@@ -15,7 +15,7 @@ def run(name, patch, pids):
             for pid in pids:
                 r = subprocess.run([os.path.join(V, 'check'), pid, '--tier', 'quick', '--repo', d], cwd=V, stdout=subprocess.PIPE, stderr=subprocess.STDOUT, text=True)
                 if r.returncode != 0:
-                    keys = [k for _, k in re.findall(r'rule=(\S+) key=(.+?) at ', r.stdout)]
+                    keys = [k for _, k in re.findall(r'^    rule=(\S+) key=(.+?) at ', r.stdout, re.M)]
                     res['alarms'][pid] = keys[:6] or [r.stdout.strip().splitlines()[-1][:200]]
     finally:
         shutil.rmtree(d, ignore_errors=True)
